@@ -587,6 +587,15 @@ func (x *Explorer) assumeFact(st *State, fact string, pos bool) bool {
 	if !st.assume(fact, pos) {
 		return false
 	}
+	// err == sentinel / Is(err, sentinel) holding implies err != nil
+	if pos && strings.HasPrefix(fact, "ErrIs(") {
+		var id int
+		fmt.Sscanf(fact, "ErrIs(%d,", &id)
+		if st.errs[id] == 1 {
+			return false
+		}
+		st.errs[id] = 2
+	}
 	// sign trichotomy of a linear form d: exactly one of Gt0(d), Eq0(d), Lt0(d)
 	for _, pfx := range []string{"Gt0(", "Eq0(", "Lt0("} {
 		if strings.HasPrefix(fact, pfx) {
